@@ -249,15 +249,26 @@ func uniqInts(a []int) []int {
 var famFixedWords = []string{"script", "svg", "iframe", "style", "onerror", "onload", "href", "src", "xmlns", "select", "union", "sleep", "and", "or", "null", "from", "javascript", "data", "import", "entity", "xml", "like", "exec"}
 
 var famSQLTemplates = []string{"%s", "1 or %s", "`%s`", "1 or `%s`", "'%s'", "\"%s\"", "@%s", "%s(1)", "`%s`(1)", "1 %s 1", "select %s from t"}
-var famXSSTemplates = []string{"<%s>", "<%s x=1>", "<a %s=1>", "<a href=%s:x>", "<a %s>", "%s=1", "</%s>", "<!--%s-->", "<?%s?>", "<a style=%s>"}
+var famXSSTemplates = []string{"<%s>", "<%s x=1>", "<a %s=1>", "<a href=%s:x>", "<a %s>", "%s=1", "</%s>", "<!--%s-->", "<?%s?>", "<a style=%s>", "<img src=\"%s:\">", "<a href=%s>"}
 
 // addFamilies appends token families to the corpus: one word (plain, upper
 // case, with an embedded NUL, mixed case) instantiated in every SQLi and XSS
 // syntactic position. Words: a fixed list plus a seeded sample of the
 // identifier-like strings found in the library's own tables.
-func addFamilies(c *common.Corpus, dict []string, seed uint64) int {
+func addFamilies(c *common.Corpus, dict []string, seed uint64, novel []string) int {
 	r := simrt.NewRNG(seed ^ 0xfa3117)
 	words := append([]string(nil), famFixedWords...)
+	// words that the baseline tree does not contain come first: a change that
+	// adds a table entry or a special-cased literal gets that literal exercised
+	for k, w := range novel {
+		if k >= 120 {
+			break
+		}
+		w = strings.ToLower(strings.Trim(w, " :=<>/\\\"'`"))
+		if len(w) >= 2 && len(w) <= 24 && !strings.ContainsAny(w, "\n\t\x00 ") {
+			words = append(words, w)
+		}
+	}
 	var ident []string
 	for _, d := range dict {
 		ok := len(d) >= 3 && len(d) <= 14
@@ -283,7 +294,12 @@ func addFamilies(c *common.Corpus, dict []string, seed uint64) int {
 	}
 	group := int32(0)
 	n := 0
+	done := map[string]bool{}
 	for _, w := range words {
+		if done[w] {
+			continue
+		}
+		done[w] = true
 		mid := len(w) / 2
 		mixed := []byte(w)
 		for i := range mixed {
@@ -292,10 +308,20 @@ func addFamilies(c *common.Corpus, dict []string, seed uint64) int {
 			}
 		}
 		variants := []string{w, strings.ToUpper(w), w[:mid] + "\x00" + w[mid:], string(mixed)}
-		for _, v := range variants {
-			group++
-			tmpl := append(append([]string(nil), famSQLTemplates...), famXSSTemplates...)
-			for _, t := range tmpl {
+		// Unicode simple-fold collisions: KELVIN SIGN folds to k, LONG S folds to s.
+		// Case-insensitive matching done two different ways disagrees exactly here.
+		if i := strings.IndexAny(w, "kK"); i >= 0 {
+			variants = append(variants, strings.ToUpper(w[:i])+"\u212a"+strings.ToUpper(w[i+1:]))
+		}
+		if i := strings.IndexAny(w, "sS"); i >= 0 {
+			variants = append(variants, w[:i]+"\u017f"+w[i+1:])
+		}
+		// one family per WORD; members template-major so that all spellings of the
+		// word in one syntactic position are asked back to back
+		group++
+		tmpl := append(append([]string(nil), famSQLTemplates...), famXSSTemplates...)
+		for _, t := range tmpl {
+			for _, v := range variants {
 				in := strings.Replace(t, "%s", v, 1)
 				if i, ok := seen[in]; ok {
 					if c.Group[i] == 0 {
@@ -313,4 +339,26 @@ func addFamilies(c *common.Corpus, dict []string, seed uint64) int {
 		}
 	}
 	return n
+}
+
+// novelLiterals returns the string literals of the current tree that the
+// committed baseline list (taken from the pinned tree) does not contain.
+func novelLiterals(verifDir string, lits []string) []string {
+	base := map[string]bool{}
+	data, err := os.ReadFile(filepath.Join(verifDir, "corpus", "baseline_literals.lst"))
+	if err != nil {
+		return nil
+	}
+	for _, l := range strings.Split(string(data), "\n") {
+		if s, err := strconv.Unquote(l); err == nil {
+			base[s] = true
+		}
+	}
+	var out []string
+	for _, l := range lits {
+		if !base[l] {
+			out = append(out, l)
+		}
+	}
+	return out
 }
